@@ -439,7 +439,7 @@ PROPS['C02'] = dict(
             'thorough': 'w=3 (1000 abstract states x 423 operations) for both sets; w=2 on the other four back-ends and on debug; 1000-gate chain'},
     assumptions=['the abstraction (bit, kind) is sound iff a bootstrapped output\'s noise does not depend on its history - which is the second half of the property and is checked on the same run (strata by input class and depth)',
                  'fresh ciphertexts inside the search are made by the harness with the parameter set\'s noise level and a deterministic generator (library encryption is C03/C07)'],
-    jobs=_c02, min_outcomes=10,
+    jobs=_c02, min_outcomes=10, max_report=2,
 )
 
 # ------------------------------------------------------------------------------------------------ C16
